@@ -15,7 +15,7 @@ pub const FLOORS: &[&str] = &[
     "neglit:BR", "neglit:LD", "neglit:JSR", "form:TRAP", "form:ALIAS", "form:NOT", "form:JMP",
     "form:JSRR", "form:RET", "form:PUSH", "form:POP", "form:RETS", "form:FILL", "form:BLKW",
     "form:STRINGZ", "orig:none", "orig:lt3000", "orig:3000", "orig:mid", "orig:ge8000",
-    "layout:wild", "layout:canonical", "accepted",
+    "layout:wild", "layout:canonical", "accepted", "unencodable_rejected",
 ];
 
 pub fn sweep_stmts() -> Vec<Stmt> {
@@ -165,7 +165,9 @@ pub fn plan(cfg: &Cfg) -> Plan {
     let n_geom = if cfg.miri {
         12
     } else if geom_full {
-        6 * 512 + 2048 + 1024
+        // every in-range distance of every field, plus the sampled set (which includes
+        // distances just beyond each field)
+        6 * 512 + 2048 + 1024 + 1200
     } else {
         1200
     };
@@ -186,7 +188,8 @@ fn geom_case(i: u64, full: bool, rng: &mut Rng) -> (usize, i32) {
         7 => 10,
         _ => 9,
     };
-    if full {
+    const FULL: u64 = 6 * 512 + 2048 + 1024;
+    if full && i < FULL {
         let mut i = i;
         for form in 0..8usize {
             let n = 1u64 << bits(form);
@@ -198,9 +201,12 @@ fn geom_case(i: u64, full: bool, rng: &mut Rng) -> (usize, i32) {
         }
         (0, 0)
     } else {
+        let i = if full { i - FULL } else { i };
         let form = (i % 8) as usize;
         let half = 1i32 << (bits(form) - 1);
-        let d = match (i / 8) % 6 {
+        let d = match (i / 8) % 8 {
+            6 => half + rng.below(80) as i32,
+            7 => -half - 1 - rng.below(80) as i32,
             0 => -half,
             1 => half - 1,
             2 => *rng.pick(&[-1, 0, -2, 1]),
@@ -349,7 +355,25 @@ pub fn check_program(
         Verdict::Accept(img) => (img.clone(), false),
         Verdict::Either(img) => (img.clone(), true),
         Verdict::Reject(why) => {
-            out.inconclusive = Some(format!("generator produced a rejected program: {}", why));
+            // A program with a label reference that no field value can express: if the assembler
+            // nevertheless accepts it, the image cannot be "the ISA encoding of the source".
+            let stack = uses_stack_ext(program);
+            let rendered = render(program, &Layout::canonical(), rng);
+            let text = rendered.text.clone();
+            match on_thread(|| assemble_fresh(&text, stack)) {
+                Some(AsmOutcome::Ok(got)) => out.violate(
+                    "C01/accepted-source-has-no-encoding",
+                    case,
+                    format!("accepted although {}: the emitted field cannot equal target - (address + 1)", why),
+                    J::obj(vec![
+                        ("kind", J::s(kind)),
+                        ("source", J::s(&rendered.text[..rendered.text.len().min(1500)])),
+                        ("got_words", J::words(&got.words[..got.words.len().min(16)])),
+                    ]),
+                ),
+                Some(_) => out.class("unencodable_rejected"),
+                None => out.inconclusive = Some("assembler thread could not be joined".into()),
+            }
             return;
         }
     };
